@@ -863,12 +863,21 @@ def opModelAmp (args : List String) : Option String := do
   | _ => none
 end AssemblyOps
 
+/-- `fermatcache <key> <key> ...` (key = leg ids in path order): the keys stored in the solver's
+    result cache after solving the paths in this order -/
+def opFermatCache (args : List String) : Option String := do
+  let keys ← args.mapM natList?
+  let legOf : Nat → Leg Nat := fun _ => { m := 1, t := fun _ _ => 0 }
+  let cache := (solveAll legOf [] keys).2
+  pure (join (sortStrs (cache.map (fun e => showNats e.1))) ";")
+
 def route (op : String) (args : List String) : String :=
   let r : Option String :=
     match op with
     | "fermat" => opFermat args
     | "minplus" => opMinPlus args
     | "chunks" => opChunks args
+    | "fermatcache" => opFermatCache args
     | "assemble" => opAssemble args
     | "modelamp" => opModelAmp args
     | "toneburst" => opToneburst args
